@@ -15,7 +15,31 @@ fn main() {
     }
     wfverif::engine::quiet_panics();
     if args[1] == "--replay" {
-        std::process::exit(replay_file(&args[2], &wfverif::subs_of));
+        let bytes = std::fs::read(&args[2]).unwrap_or_else(|e| {
+            eprintln!("cannot read {}: {e}", args[2]);
+            std::process::exit(2)
+        });
+        let is_replay_json = serde_json::from_slice::<serde_json::Value>(&bytes).map(|v| v.get("choices").is_some()).unwrap_or(false);
+        if is_replay_json {
+            std::process::exit(replay_file(&args[2], &wfverif::subs_of));
+        }
+        // a raw fuzzer artifact: needs the property id
+        let prop = args.get(3).map(|s| s.as_str()).unwrap_or("");
+        match wfverif::replay_raw(prop, &bytes) {
+            Some(Ok(())) => {
+                eprintln!("replay {}: input passes", args[2]);
+                std::process::exit(0)
+            }
+            Some(Err(f)) => {
+                eprintln!("replay {}: [{}] {}", args[2], f.sig, f.msg);
+                println!("VIOLATION property={} replay={}", prop, args[2]);
+                std::process::exit(1)
+            }
+            None => {
+                eprintln!("{} is a raw artifact; pass the property id: ./check <ID> --replay <file>", args[2]);
+                std::process::exit(2)
+            }
+        }
     }
     let prop: &'static str = match wfverif::PROPS.iter().find(|p| **p == args[1]) {
         Some(p) => p,
